@@ -1,7 +1,7 @@
 (* Properties/C09.v — every run ends cleanly: success, or a diagnostic, never a crash or a bad
    file.  Only statements, each closed by `exact`, with Print Assumptions beneath. *)
 From Verif Require Import Base.
-From Verif.Validate Require Import Aty Add Gen Spec NoCrash Exact Reported RunReported.
+From Verif.Validate Require Import Aty Add Gen Spec NoCrash Exact Reported RunReported TParam Order.
 From Coq Require Import List.
 Import ListNotations.
 
@@ -229,3 +229,38 @@ Theorem C09_minmax_unordered_refuted :
   /\ run_model PMin [ABasic KBool; ABasic KBool] = Ok.
 Proof. exact minmax_unordered_refuted_w. Qed.
 Print Assumptions C09_minmax_unordered_refuted.
+
+(* ---- round 5: a type parameter of the enclosing generic function (pkg.Add's gate, /repo ec9c759) ---- *)
+(* a call whose argument types mention a type parameter is reported, whatever the plugin and whatever else
+   the arguments are; with the gate a run is still never a crash, and the specification extended by "mentions
+   a type parameter" is still met *)
+Theorem C09_type_parameter_reported : forall (p : plugin) (typs : list aty),
+  call_tparam typs = true -> run_model_tp p typs = Err.
+Proof. exact tparam_reported. Qed.
+Print Assumptions C09_type_parameter_reported.
+Theorem C09_run_tp_no_crash : forall (p : plugin) (typs : list aty), run_model_tp p typs <> Crash.
+Proof. exact run_tp_no_crash. Qed.
+Print Assumptions C09_run_tp_no_crash.
+Theorem C09_unsupported_reported_tp : forall (p : plugin) (typs : list aty),
+  must_report_tp p typs = true -> run_model_tp p typs = Err.
+Proof. exact unsupported_reported_tp. Qed.
+Print Assumptions C09_unsupported_reported_tp.
+(* the code before the repair: set, keys and tuple accepted such calls (finding C09-type-parameter-argument) *)
+Theorem C09_type_parameter_refuted :
+  run_model PSet [ASlice (tp 0)] = Ok /\ must_report_tp PSet [ASlice (tp 0)] = true /\
+  run_model PKeys [AMap (tp 1) (tp 0)] = Ok /\ must_report_tp PKeys [AMap (tp 1) (tp 0)] = true /\
+  run_model PTuple [tp 0; tp 1] = Ok /\ must_report_tp PTuple [tp 0; tp 1] = true.
+Proof. exact tparam_refuted_before_fix. Qed.
+Print Assumptions C09_type_parameter_refuted.
+
+(* ---- round 5: several packages in one run (dependenciesFirst) ---- *)
+(* the walk that orders the packages of a run returns whatever the import relation is — import cycles
+   included, which the loader hands over (AllowErrors) *)
+Theorem C09_package_order_terminates : forall (imp : nat -> nat -> bool) (pkgs : list nat) (fuel : nat),
+  length pkgs < fuel -> deps_first imp pkgs fuel <> None.
+Proof. exact deps_first_terminates. Qed.
+Print Assumptions C09_package_order_terminates.
+(* marking a package only when it is appended does not: two packages that import each other *)
+Theorem C09_package_order_late_mark_refuted : forall fuel, deps_first_late imp2 [0; 1] fuel = None.
+Proof. exact deps_first_late_refuted. Qed.
+Print Assumptions C09_package_order_late_mark_refuted.
